@@ -633,6 +633,39 @@ pub fn oracle(hist: &[H], log: &[LRec], models: &[StackModel], stacks: &[Vec<Val
                             }
                             _ => {}
                         }
+                        // what the recipients see from inside the lifecycle callback (after the registry
+                        // applied the enter/exit): their own filtered view, never a span they did not receive
+                        if matches!(h.op.as_str(), "enter" | "exit" | "record") {
+                            for r in slog.iter().filter(|r| r.kind == kind && r.id == sp.id && r.stamp > h.inv && r.stamp < h.ret) {
+                                let want_cur = stack_t.iter().rev().find(|u| spans.get(u).map_or(false, |s| s.recv.contains(&r.layer))).and_then(|u| spans.get(u)).map(|s| s.id).unwrap_or(0);
+                                if r.cur != want_cur {
+                                    let class = if spans.values().any(|s| s.id == r.cur && !s.recv.contains(&r.layer)) { "hidden-span-visible" } else { "visible-span-hidden" };
+                                    violation(class, format!("stack {si} leaf {} inside {} of span uid {} (op {}): lookup_current() gave id {} but the spans this leaf received make it id {}", r.layer, kind, h.uid, h.gi, r.cur, want_cur));
+                                    return;
+                                }
+                                if h.op == "record" {
+                                    // nearest ancestor this leaf received
+                                    let mut u = sp.parent;
+                                    let mut want_parent = 0;
+                                    while u != 0 {
+                                        match spans.get(&u) {
+                                            Some(s) => {
+                                                if s.recv.contains(&r.layer) {
+                                                    want_parent = s.id;
+                                                    break;
+                                                }
+                                                u = s.parent;
+                                            }
+                                            None => break,
+                                        }
+                                    }
+                                    if r.id2 != want_parent {
+                                        violation("hidden-span-visible", format!("stack {si} leaf {} inside on_record of span uid {}: parent() gave id {} but the nearest ancestor this leaf received is id {}", r.layer, h.uid, r.id2, want_parent));
+                                        return;
+                                    }
+                                }
+                            }
+                        }
                     }
                 }
                 _ => {}
